@@ -184,7 +184,8 @@ func readZipFile(zf *zip.File) ([]byte, error) {
 
 func verifyCatalog(zf *zip.File, sig *AppxSignature) error {
 	if zf == nil {
-		if sig.IsBundle {
+		if sig.IsBundle || sig.HashValues["AXCI"] == nil {
+			// no catalog is written (nor signed) for a package without executables
 			return nil
 		}
 		return errors.New("missing security catalog")
